@@ -55,6 +55,14 @@ def run(ctx):
     # 4. the model's counterexample, forced with the gate (regression scenario C04-D7); also with a non-empty filter
     for i in range(3 if quick else 12):
         scen.append({"id": "gate%d" % i, "steps": [{"a": "gate", "h": 1, "off": rng.choice([0, 1, -1])}, {"a": "submit", "h": 1}]})
+    # a long-running bridge: an unrelated old entry reaches its TTL between a handshake and its replay (the purge of the
+    # expired entry must not take younger entries with it); real time, 3 s per scenario
+    for i in range(2 if quick else 6):
+        short = [2, 1, 2, 3, 1, 2][i]
+        steps = [{"a": "plant", "n": short}, {"a": "new", "h": 1, "off": [0, -1, 1][i % 3]}, {"a": "submit", "h": 1}, {"a": "new", "h": 2, "off": 0}, {"a": "submit", "h": 2},
+                 {"a": "sleep", "n": 1000 * short + 700}, {"a": "submit", "h": 1}, {"a": "submit", "h": 2}, {"a": "submit", "h": 1}]
+        scen.append({"id": "aged%d" % i, "steps": steps})
+    for i in range(3 if quick else 12):
         scen.append({"id": "gatewarm%d" % i, "steps": [{"a": "new", "h": 1, "off": 0}, {"a": "submit", "h": 1}, {"a": "gate", "h": 2, "off": 0}, {"a": "submit", "h": 1}, {"a": "submit", "h": 2}]})
     binary = ctx.go_build("./cmd/c04")
     traces = ctx.exec_scenarios(binary, scen, "c04", shards=12, timeout=3000)
